@@ -433,6 +433,10 @@ func genInflux(r *rand.Rand, c *Case) {
 			flag(c, "ttl-tag")
 		}
 		l.Ts = genTs(r, r.Intn(2)) / c.Body.Precision
+		if r.Intn(6) == 0 {
+			l.NoTs = true
+			flag(c, "clock-stamped")
+		}
 		if r.Intn(4) == 0 {
 			l.Fields = []IField{{Name: "message", Kind: "str", S: Str(pick(r, []string{"hello world", "x", "a=b c", "with \"quotes\"", "über", "null", "tab\there", "back\\slash", ""}))}}
 			flag(c, "message")
